@@ -174,3 +174,57 @@ def run(prog, res):
     if len(missing) > 3:
         res.broken.append("C13: audited globals vanished: %s" % missing)
     return stat
+
+
+# ------------------------------------------------------------------ C13.libc
+# libc interfaces that keep hidden process-wide state (or return a pointer into a static buffer): every
+# caller is audited; a new call couples the contexts of the process through state the inventory cannot see.
+HIDDEN_STATE_LIBC = {
+    "rand", "srand", "random", "srandom", "initstate", "setstate", "drand48", "erand48", "lrand48", "nrand48", "mrand48",
+    "jrand48", "srand48", "seed48", "lcong48", "strtok", "localtime", "gmtime", "asctime", "ctime", "strerror", "getenv",
+    "setenv", "unsetenv", "putenv", "clearenv", "setlocale", "dlerror", "getpwnam", "getpwuid", "getgrnam", "getgrgid",
+    "readdir", "ttyname", "tmpnam", "tempnam", "basename", "dirname", "inet_ntoa", "gethostbyname", "gethostbyaddr",
+    "getservbyname", "getprotobyname", "crypt", "ptsname", "strsignal", "getlogin", "ctermid", "l64a", "ecvt", "fcvt",
+    "gcvt", "getopt", "wcstombs", "mblen", "mbtowc", "wctomb", "umask", "chdir", "srand_r",
+}
+
+LIBC_AUDIT = {
+    ("dlerror", "sexp_load_dl"): "reads the loader's last error right after the failing dlopen/dlsym, to build an error message",
+    ("getenv", "sexp_get_environment_variable"): "(srfi 98): the process environment is per process by nature; read only",
+    ("getenv", "sexp_init_eval_context_globals"): "reads CHIBI_MODULE_PATH once per context; read only",
+    ("setenv", "sexp_setenv"): "(chibi ast) setenv: the process environment is per process by nature",
+    ("unsetenv", "sexp_unsetenv"): "(chibi ast) unsetenv: as setenv",
+    ("strerror", "sexp_error_string"): "message text for an errno value, copied into a fresh string at once",
+    ("strerror", "sexp_load_image"): "message text for an errno value, copied into the image error buffer at once",
+    ("readdir", "sexp_readdir_stub"): "the static dirent belongs to the DIR stream the caller passes; one stream is not shared between contexts",
+    ("chdir", "sexp_change_directory_stub"): "(chibi filesystem): the working directory is per process by nature",
+    ("chdir", "sexp_chdir_stub"): "(chibi filesystem): the working directory is per process by nature",
+    ("umask", "sexp_set_file_creation_mask_stub"): "(chibi filesystem): the creation mask is per process by nature",
+    ("umask", "sexp_umask_stub"): "(chibi filesystem): the creation mask is per process by nature",
+}
+
+
+def run_libc(prog, res, floor=5):
+    stat = res.stat("C13.libc", "calls to libc interfaces with hidden process-wide state: every caller is in the audited table",
+                    floor=floor)
+    for fn in prog.all_funcs():
+        if fn.unit.display.startswith("tests/"):
+            continue
+        for i, nd in enumerate(fn.nodes):
+            if nd["k"] != "call" or nd.get("o") not in HIDDEN_STATE_LIBC:
+                continue
+            # a function of that name defined in the program itself is not the libc one
+            if prog.func(nd["o"], fn.unit) is not None:
+                continue
+            stat.sites += 1
+            stat.obligations += 1
+            key = (nd["o"], fn.name)
+            if key in LIBC_AUDIT:
+                stat.discharged += 1
+                stat.sample({"call": nd["o"], "in": fn.name, "where": fn.where(i), "audit": LIBC_AUDIT[key][:70]})
+            else:
+                res.add(Finding("C13", "C13.libc.hidden-state", fn.name, nd["o"], fn.where(i),
+                                "%s calls %s(), whose state is hidden inside the C library and shared by the whole process: "
+                                "independent contexts (and OS threads driving them) observe and disturb one another through "
+                                "it; the call is not in the audited table" % (fn.name, nd["o"]), unit=fn.unit.display))
+    return stat
